@@ -2,6 +2,13 @@
 
 package stats
 
+import (
+	"math"
+	"time"
+
+	"github.com/maypok86/otter/v2/internal/xsync"
+)
+
 // Ghost counters of the statistics recorder attached to one cache (exactly one recorder per cache).
 
 func implies(a, b bool) bool { return !a || b }
@@ -12,6 +19,23 @@ func ghost_evictions() uint64      { panic("ghost") }
 func ghost_evictionWeight() uint64 { panic("ghost") }
 func ghost_loadSuccess() uint64    { panic("ghost") }
 func ghost_loadFailure() uint64    { panic("ghost") }
+
+// the sum a striped adder holds (shared with internal/xsync/verif_contracts.go)
+func ghost_adderValue(a *xsync.Adder) uint64 { panic("ghost") }
+
+func satAddU64(a, b uint64) uint64 {
+	if a+b < a {
+		return math.MaxUint64
+	}
+	return a + b
+}
+
+func clampDuration(v uint64) time.Duration {
+	if v > uint64(math.MaxInt64) {
+		return time.Duration(math.MaxInt64)
+	}
+	return time.Duration(v)
+}
 
 // The recorder is a user-supplied object (A-callbacks): these contracts define the ghost log the C20
 // obligations are stated over; the Counter implementation is verified against them.
@@ -40,3 +64,55 @@ func ghost_loadFailure() uint64    { panic("ghost") }
 //@   assumed definition of the ghost statistics log (the recorder is a user-supplied object)
 //@   modifies ghost_loadFailure()
 //@   ensures [C20:load-failure-add] ghost_loadFailure() == pre(ghost_loadFailure()) + 1
+
+// ---------------------------------------------------------------------------------------------
+// The Counter implementation: each Record* method adds to its own counter and to no other, Snapshot reports each
+// counter in its own field.
+// ---------------------------------------------------------------------------------------------
+
+//@ func (*Counter).RecordHits : C20
+//@   requires c.hits != nil
+//@   modifies ghost_adderValue(c.hits)
+//@   ensures [C20:counter-hits-add] ghost_adderValue(c.hits) == pre(ghost_adderValue(c.hits)) + uint64(count)
+
+//@ func (*Counter).RecordMisses : C20
+//@   requires c.misses != nil
+//@   modifies ghost_adderValue(c.misses)
+//@   ensures [C20:counter-misses-add] ghost_adderValue(c.misses) == pre(ghost_adderValue(c.misses)) + uint64(count)
+
+//@ func (*Counter).RecordEviction : C20
+//@   modifies c.evictions, c.evictionWeight
+//@   ensures [C20:counter-eviction-add] c.evictions.Load() == pre(c.evictions.Load()) + 1 && c.evictionWeight.Load() == pre(c.evictionWeight.Load()) + uint64(weight)
+
+//@ func (*Counter).RecordLoadSuccess : C20
+//@   modifies c.loadSuccesses, c.totalLoadTime
+//@   ensures [C20:counter-load-success-add] c.loadSuccesses.Load() == pre(c.loadSuccesses.Load()) + 1 && c.totalLoadTime.Load() == pre(c.totalLoadTime.Load()) + uint64(loadTime)
+
+//@ func (*Counter).RecordLoadFailure : C20
+//@   modifies c.loadFailures, c.totalLoadTime
+//@   ensures [C20:counter-load-failure-add] c.loadFailures.Load() == pre(c.loadFailures.Load()) + 1 && c.totalLoadTime.Load() == pre(c.totalLoadTime.Load()) + uint64(loadTime)
+
+//@ func (*Counter).Snapshot : C20
+//@   requires c.hits != nil && c.misses != nil
+//@   modifies
+//@   ensures [C20:snapshot-reports-each-counter-in-its-field] result.Hits == ghost_adderValue(c.hits) && result.Misses == ghost_adderValue(c.misses) && result.Evictions == c.evictions.Load() && result.EvictionWeight == c.evictionWeight.Load() && result.LoadSuccesses == c.loadSuccesses.Load() && result.LoadFailures == c.loadFailures.Load() && result.TotalLoadTime == clampDuration(c.totalLoadTime.Load())
+
+//@ func NewCounter : C20
+//@   ensures [C20:new-counter-is-zero] result != nil && result.hits != nil && result.misses != nil && result.hits != result.misses && ghost_adderValue(result.hits) == 0 && ghost_adderValue(result.misses) == 0 && result.evictions.Load() == 0 && result.evictionWeight.Load() == 0 && result.loadSuccesses.Load() == 0 && result.loadFailures.Load() == 0 && result.totalLoadTime.Load() == 0
+
+//@ func saturatedAdd : C20
+//@   modifies
+//@   ensures [C20:saturating-sum] result == satAddU64(a, b)
+
+//@ func (Stats).Requests : C20
+//@   modifies
+//@   ensures [C20:requests-are-hits-plus-misses] result == satAddU64(s.Hits, s.Misses)
+
+//@ func (Stats).Loads : C20
+//@   modifies
+//@   ensures [C20:loads-are-successes-plus-failures] result == satAddU64(s.LoadSuccesses, s.LoadFailures)
+
+//@ func (Stats).Plus : C20
+//@   requires s.TotalLoadTime >= 0 && other.TotalLoadTime >= 0
+//@   modifies
+//@   ensures [C20:plus-adds-fieldwise-saturating] result.Hits == satAddU64(s.Hits, other.Hits) && result.Misses == satAddU64(s.Misses, other.Misses) && result.Evictions == satAddU64(s.Evictions, other.Evictions) && result.EvictionWeight == satAddU64(s.EvictionWeight, other.EvictionWeight) && result.LoadSuccesses == satAddU64(s.LoadSuccesses, other.LoadSuccesses) && result.LoadFailures == satAddU64(s.LoadFailures, other.LoadFailures)
